@@ -8,6 +8,8 @@ from seed_table import SEEDS
 for key, info in SEEDS.items():
     pid, x = key.split('-')
     src = '/tmp/seed-%s-out/%s' % (pid.lower(), x)
+    if x in 'CD':
+        src = '/tmp/seed2-%s-out/%s' % (pid.lower(), {'C': 'A', 'D': 'B'}[x])
     dst = os.path.join(ROOT, 'seeded', key)
     if os.path.isdir(src):
         os.makedirs(os.path.join(dst, 'demo'), exist_ok=True)
